@@ -53,6 +53,18 @@ def merge_cov(results):
     return tot
 
 
+def ranges(nums):
+    """[3,4,5,9] -> '3-5,9'"""
+    out, i = [], 0
+    while i < len(nums):
+        j = i
+        while j + 1 < len(nums) and nums[j + 1] == nums[j] + 1:
+            j += 1
+        out.append(str(nums[i]) if i == j else f"{nums[i]}-{nums[j]}")
+        i = j + 1
+    return ",".join(out)
+
+
 def reach_report(mod, results):
     from . import instrument as I
 
@@ -69,8 +81,7 @@ def reach_report(mod, results):
             continue
         got = sorted(set(total) & hits.get(rel, set()))
         missing = sorted(set(total) - hits.get(rel, set()))
-        rep[rel] = {"lines_hit": len(got), "lines_total": len(total),
-                    "unreached": missing[:80]}
+        rep[rel] = {"lines_hit": len(got), "lines_total": len(total), "unreached": ranges(missing)}
     return rep
 
 
